@@ -145,7 +145,7 @@ func (h *metaH) send(p int, id byte, payload []byte) {
 	if h.peers[p].vp.Send(id, payload) != nil {
 		return
 	}
-	e := h.v.PumpEx(time.Second, torrent.ClsMsg|torrent.ClsPiece)
+	e := h.v.PumpEx(10*time.Second, torrent.ClsMsg|torrent.ClsPiece)
 	if e.Code == torrent.EvNone {
 		h.note["msgtimeout"]++
 		return
@@ -301,7 +301,7 @@ func (h *metaH) step() {
 		q.vp.Gone = true
 		q.vp.Conn.Close()
 		q.gone = true
-		e := h.v.PumpEx(time.Second, torrent.ClsDisc)
+		e := h.v.PumpEx(10*time.Second, torrent.ClsDisc)
 		if e.Code == torrent.EvNone {
 			h.note["disctimeout"]++
 			return
@@ -476,6 +476,9 @@ func genMetaSess(r *rand.Rand, tier string) Case {
 	}
 	if s.HasInfo {
 		note += "adopted=1"
+	}
+	if h.v.BarrierTimeouts > 0 {
+		note += fmt.Sprintf(" barriertimeout=%d", h.v.BarrierTimeouts)
 	}
 	return Case{In: h.in, Obs: h.obs, Note: note}
 }
